@@ -30,18 +30,18 @@ try:
     for pref in (f'/tmp/seed-{ID}-{N}/', f'/tmp/seed-{ID}-{N}'):
         copy_to = copy_to.replace(pref, '')
         cmd = cmd.replace(pref, '')
+    copy_dir = copy_to.split(' ')[0].strip() if copy_to else ''
+    created = []
     def put_demo():
-        if os.path.exists(f'{SEED}/demo_test.go'):
-            dst = os.path.join(WT, copy_to)
-            os.makedirs(dst, exist_ok=True)
+        shutil.copytree(SEED, os.path.join(WT, 'SEED'), dirs_exist_ok=True)
+        if os.path.exists(f'{SEED}/demo_test.go') and 'cp ' not in cmd and copy_dir:
+            dst = os.path.join(WT, copy_dir)
+            if not os.path.isdir(dst):
+                os.makedirs(dst); created.append(dst)
             shutil.copy(f'{SEED}/demo_test.go', os.path.join(dst, 'zz_seed_demo_test.go'))
-        if os.path.isdir(f'{SEED}/demo'):
-            shutil.copytree(f'{SEED}/demo', os.path.join(WT, 'SEED_demo'), dirs_exist_ok=True)
     def del_demo():
-        p = os.path.join(WT, copy_to, 'zz_seed_demo_test.go')
-        if os.path.exists(p): os.remove(p)
-        shutil.rmtree(os.path.join(WT, 'SEED_demo'), ignore_errors=True)
-    cmd = cmd.replace('SEED/demo', 'SEED_demo')
+        # remove everything untracked that the demonstration created
+        sh('git clean -fdq', cwd=WT)
     # 1. demo without the patch
     put_demo()
     rc0, out0 = sh(cmd, cwd=WT)
@@ -54,6 +54,13 @@ try:
         base[p] = sh(f'go test -count=1 -vet=off {p}', cwd=WT, timeout=1800)[0]
     # 2. apply
     rc, out = sh(f'git apply {SEED}/patch.diff', cwd=WT)
+    if rc != 0:  # /repo moved on since the seed was made (a fix: commit nearby): try a 3-way / fuzzy application
+        rc, out2 = sh(f'git apply --3way {SEED}/patch.diff', cwd=WT)
+        if rc != 0:
+            rc, out2 = sh(f'patch -p1 -F3 --no-backup-if-mismatch < {SEED}/patch.diff', cwd=WT)
+        out += out2
+        sh('git reset -q', cwd=WT)
+        log['apply_note'] = 'applied with 3-way/fuzz because /repo HEAD changed near the patch'
     log['apply'] = {'rc': rc, 'out': out[-400:]}
     assert rc == 0, 'patch does not apply: ' + out
     rc, out = sh('go build ./...', cwd=WT)
